@@ -214,6 +214,36 @@ func (h *histRunner) fresh(src *poolStream) *trie.SlimTrie {
 	return st
 }
 
+// marshalEv calls Marshal, logs sizes and digests, and returns the caller-owned output
+func (h *histRunner) marshalEv(st *trie.SlimTrie, src *poolStream) []byte {
+	var out []byte
+	pan, psize, pmh := "", -1, ""
+	func() {
+		defer func() {
+			if r := recover(); r != nil {
+				pan = fmt.Sprint(r)
+			}
+		}()
+		var err error
+		out, err = st.Marshal()
+		if err != nil {
+			pan = "error: " + err.Error()
+			return
+		}
+		psize = proto.Size(st)
+		if b2, err := proto.Marshal(st); err == nil {
+			pmh = hashHex(b2)
+		}
+	}()
+	ev := Ev{"ev": "marshal", "pan": pan, "mhash": hashHex(out), "mlen": len(out), "psize": psize, "pmhash": pmh,
+		"srclen": -1, "srchash": ""}
+	if src != nil {
+		ev["srclen"], ev["srchash"] = len(src.Bytes), hashHex(src.Bytes)
+	}
+	h.t.Emit(ev)
+	return out
+}
+
 func (h *histRunner) bat(st *trie.SlimTrie, src *poolStream) {
 	own := battery(h.enc, st, h.qs)
 	fr := battery(h.enc, h.fresh(src), h.qs)
@@ -270,32 +300,8 @@ func (h *histRunner) run(hist [][]interface{}) {
 			src = nil
 		case "scribble":
 			// Marshal, then overwrite the returned bytes
-			var out []byte
-			pan, psize, pmh := "", -1, ""
-			func() {
-				defer func() {
-					if r := recover(); r != nil {
-						pan = fmt.Sprint(r)
-					}
-				}()
-				var err error
-				out, err = st.Marshal()
-				if err != nil {
-					pan = "error: " + err.Error()
-					return
-				}
-				psize = proto.Size(st)
-				if b2, err := proto.Marshal(st); err == nil {
-					pmh = hashHex(b2)
-				}
-			}()
+			out := h.marshalEv(st, src)
 			pat := 1 + h.r.Intn(3)
-			ev := Ev{"ev": "marshal", "pan": pan, "mhash": hashHex(out), "mlen": len(out), "psize": psize, "pmhash": pmh,
-				"srclen": -1, "srchash": ""}
-			if src != nil {
-				ev["srclen"], ev["srchash"] = len(src.Bytes), hashHex(src.Bytes)
-			}
-			h.t.Emit(ev)
 			h.bat(st, src)
 			scribble(h.r, out, pat)
 			if lastOut != nil {
@@ -380,10 +386,17 @@ func (h *histRunner) run(hist [][]interface{}) {
 				src = nil
 			}
 			if h.c20 {
+				// the FIRST Marshal after the load, taken before any other observation
+				// touches the instance; it is overwritten together with the input buffer
+				first := h.marshalEv(st, src)
 				h.bat(st, src)
 				pat := 1 + h.r.Intn(3)
 				scribble(h.r, buf, pat)
 				h.t.Emit(Ev{"ev": "scribble", "target": "in", "pattern": pat})
+				if first != nil {
+					scribble(h.r, first, pat)
+					h.t.Emit(Ev{"ev": "scribble", "target": "out", "pattern": pat})
+				}
 			}
 		}
 		h.bat(st, src)
